@@ -455,8 +455,11 @@ fn feature_histories(rep: &mut Report, depth: usize) {
 }
 
 fn backend_channel(rep: &mut Report) {
-    for mask in 0..8u64 {
-        let proto = PF_BACKEND_REQ | PF_MQ | if mask & 1 != 0 { PF_REPLY_ACK } else { 0 } | if mask & 2 != 0 { PF_SHARED_OBJECT } else { 0 } | if mask & 4 != 0 { PF_SHMEM } else { 0 };
+    // each subset once on a fresh session and once after a RESET_DEVICE (which does not renegotiate
+    // protocol features: the channel attached afterwards must carry the same flags)
+    for mask in 0..16u64 {
+        let after_reset = mask & 8 != 0;
+        let proto = PF_BACKEND_REQ | PF_MQ | PF_RESET_DEVICE | if mask & 1 != 0 { PF_REPLY_ACK } else { 0 } | if mask & 2 != 0 { PF_SHARED_OBJECT } else { 0 } | if mask & 4 != 0 { PF_SHMEM } else { 0 };
         let mut h = match daemon(Cfg::default(), proto, VIRTIO_ALL) {
             Ok(h) => h,
             Err(e) => {
@@ -465,12 +468,15 @@ fn backend_channel(rep: &mut Report) {
             }
         };
         let (mine, theirs) = UnixStream::pair().unwrap();
+        if after_reset {
+            h.send(RESET_DEVICE, F_VERSION, &[], &[]);
+        }
         h.send(SET_BACKEND_REQ_FD, F_VERSION, &[], &[theirs.as_raw_fd()]);
         let _ = h.req(GET_FEATURES, &[], &[]); // barrier
         drop(theirs);
         let proxy = h.be.sh.0.lock().unwrap().backend_req.clone();
         rep.evaluations += 1;
-        let case = json!({"check":"C14","part":"backend_channel","reply_ack":mask&1!=0,"shared_object":mask&2!=0,"shmem":mask&4!=0});
+        let case = json!({"check":"C14","part":"backend_channel","reply_ack":mask&1!=0,"shared_object":mask&2!=0,"shmem":mask&4!=0,"after_reset_device":after_reset});
         let Some(proxy) = proxy else {
             rep.violation("C14:backend_channel:not-delivered", "SET_BACKEND_REQ_FD did not reach the backend", case);
             continue;
@@ -743,7 +749,7 @@ pub fn run(rep: &mut Report) {
     rep.sample(json!({"part":"set_vring_num","num":3,"expect":"rejected, or the ring really has size 3"}));
     rep.sample(json!({"part":"histories","seq":["TableA","Addr","Call1","TableB","Call2","UseRing"],"expect":"used element in table B's file, only call descriptor 2 signalled"}));
     rep.sample(json!({"part":"set_features","offered":"0x160000003","requested":"0x20000000","expect":"accepted, backend gets exactly 0x20000000, event_idx=true on every queue"}));
-    rep.rule = "ring index 0..=255 for each of the 8 per-ring messages; SET_VRING_NUM over 0..=300 and boundaries (0..=65535 and beyond at thorough) with the resulting queue size read back; SET_VRING_BASE then GET_VRING_BASE and used-index contents over 0..=260 and boundaries (0..=65535 at thorough), SET_VRING_ADDR alternately without and with the log flag, on a ring that is not started and again after it was started; 343 address triples at region edges, 512 triples over two regions adjacent in the frontend's address space but not in guest address space; all histories of length <= 3 (5 at thorough) over {SET_FEATURES plain / with EVENT_IDX / EVENT_IDX only, RESET_OWNER, RESET_DEVICE} ending in a SET_FEATURES (backend and queues must hold the latest set); SET_FEATURES for 7 offered masks x (single bits, offered minus/plus one bit, patterns) on 1-3 queues incl. EVENT_IDX; the backend-request channel after each of the 8 subsets of {REPLY_ACK, SHARED_OBJECT, SHMEM}; all histories of length <= 4 (5 at thorough) over {table A, table B, SET_VRING_ADDR, call fd1/fd2/none, GET_VRING_BASE + signal + restart, a table the backend rejects, add_used+signal} ending in a ring operation. Queue state is read by a probe listener inside the worker. Non-trivial = evaluations whose queue state / callback / memory / counter was compared".into();
+    rep.rule = "ring index 0..=255 for each of the 8 per-ring messages; SET_VRING_NUM over 0..=300 and boundaries (0..=65535 and beyond at thorough) with the resulting queue size read back; SET_VRING_BASE then GET_VRING_BASE and used-index contents over 0..=260 and boundaries (0..=65535 at thorough), SET_VRING_ADDR alternately without and with the log flag, on a ring that is not started and again after it was started; 343 address triples at region edges, 512 triples over two regions adjacent in the frontend's address space but not in guest address space; all histories of length <= 3 (5 at thorough) over {SET_FEATURES plain / with EVENT_IDX / EVENT_IDX only, RESET_OWNER, RESET_DEVICE} ending in a SET_FEATURES (backend and queues must hold the latest set); SET_FEATURES for 7 offered masks x (single bits, offered minus/plus one bit, patterns) on 1-3 queues incl. EVENT_IDX; the backend-request channel after each of the 8 subsets of {REPLY_ACK, SHARED_OBJECT, SHMEM}, attached on a fresh session and after a RESET_DEVICE; all histories of length <= 4 (5 at thorough) over {table A, table B, SET_VRING_ADDR, call fd1/fd2/none, GET_VRING_BASE + signal + restart, a table the backend rejects, add_used+signal} ending in a ring operation. Queue state is read by a probe listener inside the worker. Non-trivial = evaluations whose queue state / callback / memory / counter was compared".into();
 }
 
 pub fn replay(case: &Value, rep: &mut Report) {
